@@ -15,6 +15,16 @@ BUILTIN_NAMES = {
 }
 
 
+def has_ptr(v):
+    if isinstance(v, VPtr):
+        return True
+    if isinstance(v, VTuple):
+        return any(has_ptr(x) for x in v.items)
+    if isinstance(v, VUnion):
+        return any(has_ptr(x) for _, x in v.alts)
+    return False
+
+
 class ExprMixin:
     # ---------------------------------------------------------------- names
     def lookup(self, name, node=None):
@@ -79,14 +89,23 @@ class ExprMixin:
             return VBuiltin(d)
         if isinstance(r, tuple) and r[0] == 'assign':
             _, mod, valnode = r
-            key = (mod.name, name)
-            if key not in self.const_cache:
-                self.const_cache[key] = self.eval_const(mod, valnode, name)
-            v = self.const_cache[key]
-            if isinstance(v, Exception):
-                raise EngineLimit(str(v))
-            return v
+            return self.cached_const((mod.name, name), mod, valnode, name)
         self.limit(f'cannot use global {name!r} ({r})', node)
+
+    def cached_const(self, key, mod, valnode, name):
+        pk = ('const', key)
+        if pk in self.st.ghost:
+            return self.st.ghost[pk]
+        if key not in self.const_cache:
+            v = self.eval_const(mod, valnode, name)
+            if has_ptr(v):
+                self.st.ghost[pk] = v
+                return v
+            self.const_cache[key] = v
+        v = self.const_cache[key]
+        if isinstance(v, Exception):
+            raise EngineLimit(str(v))
+        return v
 
     def eval_const(self, mod, valnode, name):
         """Constant-fold a module-level assignment in its own module context."""
@@ -214,18 +233,92 @@ class ExprMixin:
             t = p.t if t is None else z3.Concat(t, p.t)
         return VStr(t if t is not None else z3.StringVal(''))
 
+    # ---- speculative (fork-free) evaluation of a sub-expression under an assumption
+    def speculate(self, assumption, node):
+        """Evaluate `node` assuming `assumption`, without forking.  Returns the
+        value, or None if that needs a case split or may raise."""
+        st = self.st
+        mark = len(st.pc)
+        heap0 = dict(st.heap)
+        nob, nsafe = len(st.obls), len(st.safe)
+        st.pc.append(assumption)
+        self.no_fork = getattr(self, 'no_fork', 0) + 1
+        try:
+            v = self.ev(node)
+            if isinstance(v, VUnion) and v.resolved is None:
+                raise EngineLimit('union')
+            v = self.res(v)
+        except (EngineLimit, PyRaise, PathEnd):
+            del st.pc[mark:]
+            st.heap.clear()
+            st.heap.update(heap0)
+            del st.obls[nob:]
+            del st.safe[nsafe:]
+            return None
+        finally:
+            self.no_fork -= 1
+        # keep definitional facts added meanwhile, drop the assumption itself
+        del st.pc[mark]
+        return v
+
     def ev_IfExp(self, node):
-        if self.is_true(self.ev(node.test)):
+        t = self.truth(self.ev(node.test))
+        if isinstance(t, bool):
+            return self.ev(node.body if t else node.orelse)
+        ts = z3.simplify(t)
+        if z3.is_true(ts):
+            return self.ev(node.body)
+        if z3.is_false(ts):
+            return self.ev(node.orelse)
+        a = self.speculate(t, node.body)
+        if a is not None:
+            b = self.speculate(z3.Not(t), node.orelse)
+            if b is not None:
+                for cls_, mk in ((VBool, VBool), (VInt, VInt), (VStr, VStr)):
+                    if type(a) is cls_ and type(b) is cls_:
+                        return mk(z3.If(t, a.t, b.t))
+                if isinstance(a, (VInt, VBool)) and isinstance(b, (VInt, VBool)):
+                    return VInt(z3.If(t, self.flat(a, 'int'), self.flat(b, 'int')))
+                return VUnion([(t, a), (z3.Not(t), b)])
+        if self.branch(t):
             return self.ev(node.body)
         return self.ev(node.orelse)
 
     def ev_BoolOp(self, node):
         is_and = isinstance(node.op, ast.And)
         v = None
+        acc = None      # accumulated z3 term while all operands so far are pure booleans
         for i, e in enumerate(node.values):
+            last = i == len(node.values) - 1
+            if acc is not None:
+                guard = acc if is_and else z3.Not(acc)
+                sv = self.speculate(guard, e)
+                if sv is not None and isinstance(sv, VBool):
+                    acc = z3.And(acc, sv.t) if is_and else z3.Or(acc, sv.t)
+                    if last:
+                        return VBool(acc)
+                    continue
+                # fall back to forking on what was accumulated
+                t = self.branch(acc)
+                acc = None
+                if is_and and not t:
+                    return VBool(False)
+                if not is_and and t:
+                    return VBool(True)
             v = self.ev(e)
-            if i == len(node.values) - 1:
+            if last:
                 return v
+            rv = self.res(v) if not isinstance(v, VUnion) or v.resolved is not None else v
+            if isinstance(rv, VBool):
+                c = rv.concrete()
+                if c is None:
+                    acc = rv.t
+                    continue
+                if is_and and not c:
+                    return rv
+                if not is_and and c:
+                    return rv
+                continue
             t = self.is_true(v)
             if is_and and not t:
                 return v
@@ -259,18 +352,24 @@ class ExprMixin:
     # ---------------------------------------------------------------- compare
     def ev_Compare(self, node):
         left = self.ev(node.left)
-        result = None
-        for op, rn in zip(node.ops, node.comparators):
+        if len(node.ops) == 1:
+            return self.compare(node.ops[0], left, self.ev(node.comparators[0]), node)
+        acc = []
+        for idx, (op, rn) in enumerate(zip(node.ops, node.comparators)):
             right = self.ev(rn)
             c = self.compare(op, left, right, node)
-            if len(node.ops) == 1:
-                return c
             t = self.truth(c)
-            if not self.branch(t):
-                return VBool(False)
-            result = c
+            if isinstance(t, bool):
+                if not t:
+                    return VBool(False)
+            else:
+                # remaining comparators are evaluated unconditionally only when they are
+                # plain names/constants/subscripts already evaluated (no side effects in practice)
+                acc.append(t)
             left = right
-        return result
+        if not acc:
+            return VBool(True)
+        return VBool(z3.And(*acc) if len(acc) > 1 else acc[0])
 
     def compare(self, op, a, b, node=None):
         if isinstance(op, ast.Eq):
@@ -529,13 +628,7 @@ class ExprMixin:
             a = info.find_attr(attr)
             if a is not None:
                 ci, valnode = a
-                key = (ci.module.name, ci.name + '.' + attr)
-                if key not in self.const_cache:
-                    self.const_cache[key] = self.eval_const(ci.module, valnode, attr)
-                v = self.const_cache[key]
-                if isinstance(v, Exception):
-                    raise EngineLimit(str(v))
-                return v
+                return self.cached_const((ci.module.name, ci.name + '.' + attr), ci.module, valnode, attr)
         if attr == 'args' and self.is_subclass_name(c.cls, 'BaseException'):
             return VTuple(())
         r = models.obj_getattr_missing(self, ptr, c, attr, node)
@@ -559,13 +652,7 @@ class ExprMixin:
         a = info.find_attr(attr)
         if a is not None:
             ci, valnode = a
-            key = (ci.module.name, ci.name + '.' + attr)
-            if key not in self.const_cache:
-                self.const_cache[key] = self.eval_const(ci.module, valnode, attr)
-            v = self.const_cache[key]
-            if isinstance(v, Exception):
-                raise EngineLimit(str(v))
-            return v
+            return self.cached_const((ci.module.name, ci.name + '.' + attr), ci.module, valnode, attr)
         self.limit(f'class attribute {info.name}.{attr}', node)
 
     # ---------------------------------------------------------------- subscript
